@@ -1,18 +1,24 @@
 """C41 Protocol version negotiation only steps down and terminates.
 
-A real Cluster (control connection, Connection.factory, pools) connects to a virtual node that
+Layer E: a real Cluster (control connection, Connection.factory, pools) connects to a virtual node that
 supports a given subset of the protocol versions the driver knows and rejects the others in one of
-four ways.  All 256 subsets x 8 starting versions x explicit/implicit x rejection styles are run;
-the versions carried by the OPTIONS/STARTUP frames the node received are compared with the chain
-the statement prescribes.
+four ways.  All 256 subsets x 8 starting versions x explicit/implicit x rejection styles are run
+sequentially (the node's reply is processed while the connecting thread waits); the versions carried by
+the OPTIONS/STARTUP frames the node received are compared with the chain the statement prescribes.
+
+Layer S: for a small set of negotiation scenarios the same Cluster.connect() runs as a virtual client thread
+while a reactor thread delivers the node's frames and an executor worker runs queued tasks; every schedule
+with at most one preemption is enumerated (scheduling points: every virtual lock/event/submit operation and
+every source line of the handshake-rejection path on both sides), judged by the same oracle.
 """
 from vt import sched
 from vt.core import Part, HarnessError
 
 META = {
     'level': 'model_checking',
-    'engine': 'E',
-    'technique': 'exhaustive enumeration of server-supported version sets x start version x configuration x rejection style on the real Cluster.connect',
+    'engine': 'E+S',
+    'technique': 'exhaustive enumeration of server-supported version sets x start version x configuration x rejection style on the real Cluster.connect, '
+                 'plus stateless preemption-bounded schedule exploration (reactor thread vs connecting thread) of negotiation scenarios',
     'text': 'For every subset S of the 8 protocol versions the driver knows (256), every starting version (8), explicit '
             '(Cluster(protocol_version=v)) or implicit (default; or the not-explicit state left by earlier downgrades, '
             'cluster.protocol_version = v) and each rejection style {ERROR ProtocolError "Invalid or unsupported protocol version" '
@@ -22,10 +28,20 @@ META = {
             'non-beta known version, ... (strictly decreasing, 6 skipped), stopping at the first version in S; an explicit version is '
             'tried once and never downgraded; when no version <= start (non-beta below start) is in S the connect raises after '
             'version 1 (finite: <= 8 attempts, guarded at 30 connections); connect succeeds iff the chain reaches a version in S, and '
-            'every later connection (pools) uses exactly the negotiated version.',
+            'every later connection (pools) uses exactly the negotiated version.  '
+            'Schedule layer: for each rejection style, 6 scenarios (quick; 14 thorough): default start with the node one step / two '
+            'steps below (ending at v5 with segment framing), a downgraded start one step / three steps above the node\'s version, '
+            'everything rejected, an explicit version rejected; Cluster.connect() runs in a client thread, a reactor thread delivers '
+            'each frame the node sends (Connection.process_msg -> defunct / handshake handlers) and one executor worker runs the '
+            'queued tasks; all schedules with <= 1 preemption (all non-preemptive orders included; thorough: <= 2 for the start=5, node={4,3} scenarios) are enumerated, scheduling points '
+            'at every virtual lock acquire, Event.set/wait, executor submit and at every source line of Connection.process_msg, '
+            'defunct, error_all_requests, factory, _handle_options_response, _handle_startup_response, '
+            'ControlConnection._try_connect and Cluster.protocol_downgrade; same oracle, plus no deadlock/livelock of the connect.',
     'note': 'The chain [DSE_V2, DSE_V1, 5, 4, 3, 2, 1] is hard-coded in the check (not read from the driver); '
             'ProtocolVersion.SUPPORTED_VERSIONS is only used as the alphabet of versions and compared with the expected set.  '
-            'One contact point; schema/token metadata refresh disabled.',
+            'One contact point; schema/token metadata refresh disabled.  Schedule layer: preemption granularity is the source line '
+            '(focus functions) or the virtual primitive (elsewhere); one reactor thread, one executor worker; a timed wait expires '
+            'only when no thread can run (the connect timeout never fires while the reply is deliverable).',
     'design_ref': 'C41',
 }
 
@@ -246,6 +262,7 @@ def sched_harness(params, prefix, part):
                     done[0] = True
 
             def worker():
+                s.current.waiting = None
                 while True:
                     if not w.tasks:
                         s.block(lambda: bool(w.tasks) or stop[0], None, 'worker idle')
@@ -277,9 +294,9 @@ def sched_harness(params, prefix, part):
                 stop[0] = True
 
             s.spawn(client, 'client')
-            s.spawn(worker, 'worker')
-            # reactor and janitor are born waiting (a thread that has not started would otherwise be offered as an
+            # worker, reactor and janitor are born waiting (a thread that has not started would otherwise be offered as an
             # alternative at every point although it has nothing to do)
+            s.spawn(worker, 'worker').waiting = lambda: bool(w.tasks) or stop[0]
             s.spawn(reactor, 'reactor').waiting = lambda: bool(srv.outbox) or stop[0]
             s.spawn(janitor, 'janitor').waiting = quiet
             try:
@@ -367,6 +384,9 @@ def _quiet():
 def run_sched(ctx):
     bound = 1
     jobs = [(c, bound) for c in ctx.rotate(sched_cases(ctx.thorough))]
+    if ctx.thorough:
+        # two preemptions for the shortest scenarios (one step down; explicit version rejected)
+        jobs += [(c, 2) for c, _ in list(jobs) if (c['start'], c['supported']) == (5, [4, 3])]
     roots = ctx.pmap(_sched_root, jobs)
     sub = []
     maxpts = 0
@@ -378,7 +398,7 @@ def run_sched(ctx):
     for part in ctx.pmap(_sched_sub, sub):
         ctx.merge(part)
     n = ctx.counters.get('sched_executions', 0)
-    ctx.cov.setdefault('harnesses', {})['c41-sched'] = {'cases': len(jobs), 'preemption_bound': bound, 'executions': n,
+    ctx.cov.setdefault('harnesses', {})['c41-sched'] = {'jobs': len(jobs), 'preemption_bounds': sorted(set(b for _, b in jobs)), 'executions': n,
                                                          'max_choice_points': maxpts, 'complete': True}
 
 
@@ -409,12 +429,19 @@ def run(ctx):
         ctx.merge(part)
     run_sched(ctx)
     ctx.count('states', len(ctx.outcomes))
-    ctx.cov['rule'] = ('%d runs = 8 start versions x {explicit, implicit} x 256 supported sets x %d rejection styles %s; states = distinct observed (configuration kind, style, outcome, sequence of attempt versions); transitions = '
-                       'connection attempts observed at the node; non-trivial = distinct (start, expected chain, outcome, style) with at '
-                       'least one downgrade' % (len(cases), len(STYLES), list(STYLES)))
+    nsched = ctx.counters.get('sched_executions', 0)
+    ctx.cov['rule'] = ('%d sequential runs = 8 start versions x {explicit, implicit} x 256 supported sets x %d rejection styles %s, plus %d '
+                       'schedule-layer executions (every schedule with <= 1 preemption of %d scenarios%s); evaluations = executions = both; '
+                       'states = distinct observed (layer + configuration kind, style, outcome, sequence of attempt versions); transitions = '
+                       'connection attempts observed at the node (sched_steps = scheduling points passed); non-trivial = distinct (start, expected chain, outcome, style) with at '
+                       'least one downgrade, and for the schedule layer distinct (scenario, non-default schedule) with at least one downgrade expected'
+                       % (len(cases), len(STYLES), list(STYLES), nsched, len(sched_cases(ctx.thorough)),
+                          '; <= 2 preemptions of the start=5, node={4,3} scenarios' if ctx.thorough else ''))
     ctx.cov['exhaustive'] = True
     ctx.assume('a node rejects an unsupported version at the first frame (OPTIONS) or, in one style, at STARTUP; it never accepts a '
                'version outside its set')
+    ctx.assume('schedule layer: line-level atomicity of CPython statements; the reactor delivers one frame per turn; the connect timeout '
+               'does not expire while a thread can run')
     ctx.assume('implicit configurations with a start version other than the default are the state left by earlier downgrades '
                '(cluster.protocol_version assigned, not explicit)')
 
@@ -425,7 +452,11 @@ def replay(ctx, data):
     from vt import connlib
     connlib.quiet_driver_logs()
     part = Part()
-    run_case(data['start'], data['explicit'], data['supported'], data['style'], part)
+    if 'prefix' in data:
+        params = {k: data[k] for k in ('start', 'explicit', 'supported', 'style')}
+        sched_harness(params, data['prefix'], part)
+    else:
+        run_case(data['start'], data['explicit'], data['supported'], data['style'], part)
     for fp, what, _ in part.violations:
         print(fp, '::', what[:500])
     return bool(part.violations)
